@@ -17,6 +17,7 @@ import (
 	"path/filepath"
 	"sort"
 	"strings"
+	"sync"
 	"time"
 )
 
@@ -144,29 +145,10 @@ func c02Report(ctx *Ctx, res *Result, tree map[string]fileState, cfg wrConfig, p
 
 var c02PlainOpts = [][]string{{}, {"-f"}, {"-s"}, {"-e"}, {"-g"}, {"-q"}, {"-Wall", "-Call"}, {"-f", "-s"}, {"-f", "-e"}, {"-s", "-e", "-g"}, {"-Wall", "-f", "-s", "-q"}}
 
-func c02Targets(rng *Rng, g *GenTree, args []string) wrConfig {
-	var fileArgs []string
-	for _, f := range g.Files {
-		if st, err := os.Stat(g.Path(f)); err == nil && st.Mode().IsRegular() && strings.HasPrefix(f, "cat/p") && (st.Mode()&0o111 != 0 || rng.Chance(10)) {
-			fileArgs = append(fileArgs, f)
-		}
-	}
-	if len(fileArgs) > 0 && rng.Chance(50) {
-		return wrConfig{Cwd: ".", Args: append(append(append([]string{}, args...), fileArgs...), g.Pkgs...)}
-	}
-	switch rng.Intn(5) {
-	case 0, 1:
-		return wrConfig{Cwd: ".", Args: append(append([]string{}, args...), "-r", ".")}
-	case 2:
-		return wrConfig{Cwd: ".", Args: append(append([]string{}, args...), g.Pkgs...)}
-	case 3:
-		return wrConfig{Cwd: Pick(rng, g.Pkgs), Args: append([]string{}, args...)}
-	}
-	return wrConfig{Cwd: "cat", Args: append(append([]string{}, args...), "-r", ".")}
-}
+func c02Targets(rng *Rng, g *GenTree, args []string) wrConfig { return pickTargets(rng, g, args) }
 
 func runC02(ctx *Ctx) *Result {
-	res := &Result{Rule: "one case = one run of the real binary on a generated tree with one option set; per tree 3 option sets without -F (drawn from {default,-f,-s,-e,-g,-q,-Wall -Call and combinations} x {--only p} x targets {-r ., packages, package as cwd, category, single files incl. executable ones}) and then one with -F; non-trivial = a run in which at least one fix site fired (an AUTOFIX line was printed, or in default mode a -f run of the same tree prints one); each run is judged by comparing full snapshots (entry set, type, mode, content) before and after"}
+	res := &Result{Rule: "one case = one run of the real binary on a generated tree with one option set; per tree 3 option sets without -F (drawn from {default,-f,-s,-e,-g,-q,-Wall -Call and combinations} x {--only p} x targets {-r ., packages, package as cwd, category, single files and directories, repeated targets, non-clean spellings}), then one with -F --only p (p drawn uniformly over the diagnostic kinds with a fix that the tree triggers) and one with -F; non-trivial = a run in which at least one fix site fired (an AUTOFIX line was printed, or in default mode a -f run of the same tree prints one); each run is judged by comparing full snapshots (entry set, type, mode, content) before and after"}
 	rng := NewRng(ctx.Seed)
 	ntrees := 260
 	if ctx.Tier == "thorough" {
@@ -185,31 +167,48 @@ func runC02(ctx *Ctx) *Result {
 	for i := range seeds {
 		seeds[i] = rng.Fork()
 	}
+	feats := map[string]int{}
+	var featMu sync.Mutex
 	parallelFor(ntrees, func(i int) {
 		r := seeds[i]
 		root := filepath.Join(ctx.Work, fmt.Sprintf("c%d", i))
 		g := GenerateTreeC03(r, root, GenOpts{Packages: 1 + i%3, Hostile: i%7 == 6, Rich: i%9 == 8, Density: 25 + 10*(i%4)})
 		probe := RunPkglint(ctx, root, 30*time.Second, "-Wall", "-f", "-r", ".")
-		pats := onlyPatterns(probe.Stdout)
+		byKind := onlyPatternsByKind(probe.Stdout)
 		hasFix := strings.Contains(probe.Stdout, "AUTOFIX") || strings.Contains(probe.Stdout, "autofix:")
 		var sets [][]string
 		for k := 0; k < 3; k++ {
 			o := append([]string{}, Pick(r, c02PlainOpts)...)
-			if len(pats) > 0 && r.Chance(30) {
-				o = append(o, "--only", Pick(r, pats))
+			if p, ok := pickOnly(r, byKind); ok && r.Chance(30) {
+				o = append(o, "--only", p)
 			}
 			sets = append(sets, o)
+		}
+		// first a filtered -F run (a fix selected by --only may have a silent follow-up fix in
+		// another file), then an unfiltered one on what is left
+		if p, ok := pickOnly(r, byKind); ok {
+			fo := []string{"-F"}
+			if r.Chance(40) {
+				fo = append(fo, Pick(r, c02PlainOpts)...)
+			}
+			fo = append(fo, "--only", p)
+			if r.Chance(20) {
+				q, _ := pickOnly(r, byKind)
+				fo = append(fo, "--only", q)
+			}
+			sets = append(sets, fo)
 		}
 		fo := []string{"-F"}
 		if r.Chance(50) {
 			fo = append(fo, Pick(r, c02PlainOpts)...)
 		}
-		if len(pats) > 0 && r.Chance(35) {
-			fo = append(fo, "--only", Pick(r, pats))
-		}
 		sets = append(sets, fo)
 		for _, o := range sets {
 			cfg := c02Targets(r, g, o)
+			if len(o) > 1 && o[0] == "-F" && o[len(o)-2] == "--only" && r.Chance(60) {
+				// the filtered --autofix run mostly sees the whole tree
+				cfg = wrConfig{Cwd: ".", Args: append(append([]string{}, o...), "-r", ".")}
+			}
 			before := readTree(root)
 			run := RunPkglint(ctx, filepath.Join(root, cfg.Cwd), 30*time.Second, cfg.Args...)
 			after := readTree(root)
@@ -218,8 +217,18 @@ func runC02(ctx *Ctx) *Result {
 			fired := isF && (strings.Contains(run.Stdout, "AUTOFIX: ") || strings.Contains(run.Stdout, ": autofix: "))
 			recs[i] = append(recs[i], runRec{cfg: cfg, tree: before, ps: ps, r: run, isF: isF, fix: (!isF && hasFix) || fired})
 		}
+		featMu.Lock()
+		for k, v := range g.Features {
+			if strings.HasPrefix(k, "c03.") {
+				feats[k] += v
+			}
+		}
+		featMu.Unlock()
 		os.RemoveAll(root)
 	})
+	for k, v := range feats {
+		res.Count("feature."+k, v)
+	}
 	type pending struct {
 		tree map[string]fileState
 		cfg  wrConfig
@@ -249,9 +258,12 @@ func runC02(ctx *Ctx) *Result {
 			} else {
 				res.Count("runs_without_-F", 1)
 			}
-			for _, a := range rec.cfg.Args {
+			for k, a := range rec.cfg.Args {
 				if strings.HasPrefix(a, "-") {
 					res.Count("opt."+a, 1)
+				}
+				if a == "--only" && rec.isF && k+1 < len(rec.cfg.Args) {
+					res.Count("only_with_-F."+rec.cfg.Args[k+1], 1)
 				}
 			}
 			if len(res.Samples) < 5 && rec.fix {
